@@ -558,8 +558,6 @@ class Oracle(object):
         auto = bool(run.case['auto'])
         want = self.claims()
         own_events = case_events(run.case)
-        if not run.registered:
-            return
         # -- to_<state> events exist for every state iff auto transitions are enabled --------------
         for s in m.states:
             n = to_name(attr, s)
@@ -567,6 +565,8 @@ class Oracle(object):
                 self.bad('to-event-exists-iff-auto', state=s, event=n, exists=n in m.events, auto=auto)
         if attr in m.events:
             self.bad('event-named-like-the-state-attribute', event=attr)
+        if not run.registered:
+            return
         for pos, i in enumerate(run.registered):
             obj, twin = run.objs[i], twin_objs[pos]
             orig = run.originals[i]
@@ -734,17 +734,21 @@ def run_case(case, lean_answer):
         facts['errors'] += int(err != 0)
         facts['fired'] += int(res == 2)
         lerr, lres, lsnap = lean[k]
-        # correspondence: outcome of the step and the whole machine afterwards
+        # correspondence: outcome of the step and the whole machine afterwards (the oracle below still judges this
+        # step, so that a change of the code shows up as a failing clause and not only as a disagreement)
+        corr = None
         if (err, res) != (lerr, lres):
-            fails.append(('correspondence', 'step_outcome', {'step': k, 'op': op, 'impl': [err, res], 'model': [lerr, lres]}, None))
-            break
-        snap = introspect(run)
-        diff = compare(run, snap, lsnap)
-        if diff:
-            fails.append(('correspondence', 'snapshot', dict(diff, step=k, op=op), None))
-            break
+            corr = ('correspondence', 'step_outcome', {'step': k, 'op': op, 'impl': [err, res], 'model': [lerr, lres]}, None)
+        else:
+            diff = compare(run, introspect(run), lsnap)
+            if diff:
+                corr = ('correspondence', 'snapshot', dict(diff, step=k, op=op), None)
+        if corr:
+            fails.append(corr)
         twin = copy.deepcopy((run.machine, [run.objs[i] for i in run.registered]))
         orc = Oracle(run, twin)
+        if op[0] == 'trans' and op[1] == run.attr and err != 1:
+            orc.bad('event-named-like-the-state-attribute-accepted', op=op, error_code=err)
         try:
             orc.check(op, full=(k == n_ops - 1))
         except common.MachineryError:
@@ -757,6 +761,8 @@ def run_case(case, lean_answer):
             for clause, details in orc.problems[:3]:
                 sig = REMOVE_SIG if hit and clause in REMOVE_CLAUSES else 'C11.flat.' + clause
                 fails.append(('monitor', clause, dict(details, step=k), sig))
+            break
+        if corr:
             break
         # the model side's callEvent / callTrigger / callIs against the real helpers (on the twin)
         d2 = compare_calls(run, lsnap, twin)
